@@ -250,7 +250,7 @@ OWN_KINDS = {
     "dcmtsplit": dict(split=0.5, dc_eol=0.7),
     "chaos": dict(ws=0.7, case=0.5, eol_comment=0.4, own_comment=0.2, split=0.4, tabs=0.3, blank=0.1, trailing=0.2),
 }
-SHARED_KINDS = list(gen_inputs.VARIANTS)
+SHARED_KINDS = [v for v in gen_inputs.VARIANTS if v != "preproc"]  # inserting preprocessor lines is not one of the re-layouts C05 speaks about
 KINDS = SHARED_KINDS + list(OWN_KINDS)
 
 
